@@ -140,6 +140,31 @@ def deny_list(F):
                             v = const_value(op)
                             if isinstance(v, str) and v not in strs:
                                 strs.append(v)
+            # strings reached through constants: a promoted or *named* constant array of &str
+            # (`const NAMES: [&str; N] = [...]; NAMES.iter().map(|s| s.to_string()).collect()`)
+            def const_strings(o, out):
+                if isinstance(o, dict):
+                    if isinstance(o.get("str"), str) and "hex" in o:
+                        out.append(o["str"])
+                    nm = o.get("named")
+                    if isinstance(nm, str):
+                        for cst in F.j["consts"]:
+                            if cst["name"] == nm or cst["id"].endswith(nm):
+                                const_strings({k: v for k, v in cst.items() if k not in ("name", "id")}, out)
+                    for k, v in o.items():
+                        if k != "named":
+                            const_strings(v, out)
+                elif isinstance(o, list):
+                    for v in o:
+                        const_strings(v, out)
+            if not strs:
+                extra = []
+                const_strings(f.blocks, extra)
+                for g in F.descendants(f.id):
+                    const_strings(g.blocks, extra)
+                for v in extra:
+                    if v not in strs:
+                        strs.append(v)
             deref = F.fns.get(f.id[: -len("::__static_ref_initialize")])
             name = deref.j.get("self_ty") if deref else None
             cands.append((name, strs, f))
